@@ -435,8 +435,25 @@ impl From<StringKey> for IsographDirectiveName { #[verifier::external_body] fn f
 /// `s.contains(c)` for a char pattern
 #[verifier::external_body]
 pub fn str_contains_char(s: &str, c: char) -> bool { unimplemented!() }
+#[derive(Clone, Copy)] pub struct SelectableName(pub StringKey);
+impl From<StringKey> for SelectableName { #[verifier::external_body] fn from(k: StringKey) -> Self { SelectableName(k) } }
+#[derive(Clone, Copy)] pub struct SelectableAlias(pub StringKey);
+impl From<StringKey> for SelectableAlias { #[verifier::external_body] fn from(k: StringKey) -> Self { SelectableAlias(k) } }
+/// directive sets are deserialized from the parsed directives (serde; opaque here)
 #[verifier::external_body]
-pub struct Selection { p: core::marker::PhantomData<u8> }
+pub struct ScalarSelectionDirectiveSet { p: core::marker::PhantomData<u8> }
+#[verifier::external_body]
+pub struct ObjectSelectionDirectiveSet { p: core::marker::PhantomData<u8> }
+#[verifier::external_body]
+pub fn from_isograph_field_directives<T>(directives: &WithEmbeddedLocation<Vec<WithEmbeddedLocation<IsographFieldDirective>>>) -> Result<T, Diagnostic> { unimplemented!() }
+#[verifier::external_body]
+pub fn fragment_spread_diagnostic(location: EmbeddedLocation) -> Diagnostic { unimplemented!() }
+//@item rel=crates/isograph_lang_types/src/base_types.rs kind=enum name=SelectionType prefix="pub"
+//@item rel=crates/isograph_lang_types/src/declarations/selection_declaration.rs kind=struct name=ScalarSelection prefix="pub"
+//@item rel=crates/isograph_lang_types/src/declarations/selection_declaration.rs kind=struct name=ObjectSelection prefix="pub"
+pub type Selection = SelectionType<ScalarSelection, ObjectSelection>;
+//@item rel=crates/isograph_lang_types/src/declarations/selection_argument.rs kind=struct name=SelectionFieldArgument prefix="pub"
+//@item rel=crates/isograph_lang_types/src/isograph_directives.rs kind=struct name=IsographFieldDirective prefix="pub"
 //@item rel=crates/isograph_lang_types/src/declarations/client_selectable_declaration.rs kind=struct name=SelectionSet prefix="pub"
 
 /// a located value whose span is well-formed, lies inside the literal and does not start
@@ -502,14 +519,6 @@ pub open spec fn cursor_fn_ok<'a, T, F: Fn(&mut PeekableLexer<'a>) -> Diagnostic
             cursor_fn_ok(parse_item), cursor_fn_ok(parse_delimiter),
 //@end
 
-/// parse_selection: contract assumed here (see the unit header for which parser functions
-/// are verified and which are assumed)
-#[verifier::external_body]
-pub fn parse_selection(tokens: &mut PeekableLexer<'_>) -> (r: DiagnosticResult<WithEmbeddedLocation<Selection>>)
-    requires old(tokens).inv(),
-    ensures final(tokens).inv(), final(tokens).same_literal(old(tokens)), final(tokens).monotone(old(tokens)),
-        r is Ok ==> final(tokens).progressed(old(tokens)),
-{ unimplemented!() }
 
 //@fn rel=crates/isograph_lang_parser/src/parse_iso_literal.rs name=parse_optional_selection_set_inner vis=pub ret=r serves=C07 prefix="#[verifier::exec_allows_no_decreases_clause]"
 //@rw R4
@@ -528,7 +537,7 @@ pub fn parse_selection(tokens: &mut PeekableLexer<'_>) -> (r: DiagnosticResult<W
             tokens.inv(), tokens.same_literal(old(tokens)), tokens.monotone(old(tokens)), tokens.progressed(old(tokens)),
 //@end
 
-//@fn rel=crates/isograph_lang_parser/src/parse_iso_literal.rs name=parse_optional_selection_set vis=pub ret=r serves=C07
+//@fn rel=crates/isograph_lang_parser/src/parse_iso_literal.rs name=parse_optional_selection_set vis=pub ret=r serves=C07 prefix="#[verifier::exec_allows_no_decreases_clause]"
 //@rw R4
 //@contract
     requires old(tokens).inv(),
@@ -565,7 +574,6 @@ pub fn parse_non_constant_value(tokens: &mut PeekableLexer<'_>) -> (r: Diagnosti
         r is Ok ==> final(tokens).progressed(old(tokens)),
 { unimplemented!() }
 
-//@item rel=crates/isograph_lang_types/src/declarations/selection_argument.rs kind=struct name=SelectionFieldArgument prefix="pub"
 //@fn rel=crates/isograph_lang_parser/src/parse_iso_literal.rs name=parse_argument vis=pub ret=r serves=C07
 //@rw R4
 //@contract
@@ -604,7 +612,6 @@ pub type NameValuePair<TName, TValue> = NameValuePairInner<TName, TValue, Embedd
         r is Ok ==> final(tokens).progressed(old(tokens)),
 //@end
 
-//@item rel=crates/isograph_lang_types/src/isograph_directives.rs kind=struct name=IsographFieldDirective prefix="pub"
 //@fn rel=crates/isograph_lang_parser/src/parse_iso_literal.rs name=parse_directives vis=pub ret=r serves=C07 prefix="#[verifier::exec_allows_no_decreases_clause]"
 //@rw R16 R4
 //@hsub "tokens: &mut PeekableLexer," => "tokens: &mut PeekableLexer<'_>,"
@@ -628,6 +635,20 @@ pub type NameValuePair<TName, TValue> = NameValuePairInner<TName, TValue, Embedd
                     directives@.len() == 0 ==> tokens.current.span.start == old(tokens).current.span.start,
 //@closure 2 params="" ret="d: WithEmbeddedLocation<Vec<WithEmbeddedLocation<IsographFieldDirective>>>"
             ensures d.location.span.start == 0 && d.location.span.end == 0,
+//@end
+
+//@fn rel=crates/isograph_lang_parser/src/parse_iso_literal.rs name=parse_selection vis=pub ret=r serves=C07 prefix="#[verifier::exec_allows_no_decreases_clause]"
+//@rw R17 R4
+//@contract
+    requires old(tokens).inv(),
+    ensures
+        final(tokens).inv(), //@O C07.O-5_parse_selection_preserves_cursor_invariant
+        final(tokens).same_literal(old(tokens)), final(tokens).monotone(old(tokens)),
+        r is Ok ==> final(tokens).progressed(old(tokens)) && located_from(r->Ok_0, old(tokens)), //@O C07.O-5_selection_span_well_formed
+//@closure 1 params="tokens: &mut PeekableLexer<'_>" ret="cr: Result<Selection, Diagnostic>"
+            requires old(tokens).inv(),
+            ensures final(tokens).inv(), final(tokens).same_literal(old(tokens)), final(tokens).monotone(old(tokens)),
+                cr is Ok ==> final(tokens).progressed(old(tokens)),
 //@end
 
 // ---- string / block-string callbacks of the logos lexer (token_kind.rs) ---------------
